@@ -332,7 +332,7 @@ func init() {
 			}
 			c := genL2WCase(r, tier, true)
 			if isVeryFarCase(tier, idx) {
-				pl, dc := veryFarPayload(r)
+				pl, dc := veryFarPayload(r, idx)
 				c.L2.DictCap, c.L2.Matcher, c.L2.BufSize = dc, 0, 4096
 				c.Payload, c.RDict = pl, dc
 				c.Ops = []Op{{K: "w", N: pl.Len()}, {K: "f"}, {K: "c"}}
